@@ -27,6 +27,7 @@ Definition toy_leaf_m (t : sty) (a : N) : res N :=
 Definition W0 : world := {|
   w_text := fun a => match a with 1 | 5 | 8 | 9 | 11 => true | _ => false end;
   w_temporal := fun a => match a with 6 | 7 => true | _ => false end;
+  w_isdelta := fun a => false;
   w_isnone := fun a => match a with 2 => true | _ => false end;
   w_eqc := fun a => match a with 7 => 6 | _ => a end;
   w_strload := fun a => match a with 5 => VL PFresh [VA 3; VA 4] | 11 => VA 10 | _ => VA a end;
@@ -54,7 +55,7 @@ Definition U_str_int : ann := AUnion [AS SStr; AS SInt].
 Definition h_alias : list op := [OUnmarshal ABareList (INew (VA 5)); OMutResult 0 []].
 Definition o_alias : op := OUnmarshal ABareList (INew (VA 5)).
 Definition o_alias_copy : op := OUnmarshal (AList (AS SInt)) (INew (VA 5)).
-(* finding 10: marshal 12:00+00:00, then the equal instant 17:00+05:00 *)
+(* design observation 10 (repaired in 34d5e39): marshal 12:00+00:00, then the equal instant 17:00+05:00 *)
 Definition h_iso : list op := [OMarshal (AS SDateTime) (INew (VA 6))].
 Definition o_iso : op := OMarshal (AS SDateTime) (INew (VA 7)).
 (* finding 11: build Union[int, str], then use Union[str, int]; and the nested form through inspection.unwrap *)
